@@ -119,7 +119,7 @@ func flowRender(name string, ops [][2]string) string {
 		case "forcond":
 			b.WriteString("for p {\n")
 			stack = append(stack, fr{k, 0})
-		case "range":
+		case "range", "erange": // a range loop over a user-defined enumerator is a range loop for Go's rules
 			b.WriteString("for range sl {\n")
 			stack = append(stack, fr{k, 0})
 		case "block":
@@ -136,6 +136,9 @@ func flowRender(name string, ops [][2]string) string {
 			stack = append(stack, fr{k, 0})
 		case "closure":
 			b.WriteString("gf(func() int {\n")
+			stack = append(stack, fr{k, 0})
+		case "inline":
+			b.WriteString("func() {\n")
 			stack = append(stack, fr{k, 0})
 		case "else":
 			b.WriteString("} else {\n")
@@ -160,6 +163,8 @@ func flowRender(name string, ops [][2]string) string {
 			case "clause":
 			case "closure":
 				b.WriteString("})\n")
+			case "inline":
+				b.WriteString("}()\n")
 			default:
 				b.WriteString("}\n")
 			}
@@ -244,6 +249,16 @@ func newFlowBuilder() *flowBuilder {
 	pkg.NewVar(token.NoPos, types.NewChan(types.SendRecv, ti), "ch")
 	pkg.NewVar(token.NoPos, types.NewInterfaceType(nil, nil), "ifc")
 	pkg.NewFunc(nil, "g0", nil, nil, false).BodyStart(pkg).End()
+	// a user-defined enumerator in the Next() style: type En struct{}; func (En) XGo_Enum() *It; func (*It) Next() (int, bool)
+	tIt := pkg.NewType("It").InitType(pkg, types.NewStruct(nil, nil))
+	pIt := types.NewPointer(tIt)
+	pkg.NewFunc(types.NewParam(token.NoPos, pkg.Types, "it", pIt), "Next", nil,
+		types.NewTuple(types.NewParam(token.NoPos, pkg.Types, "", ti), types.NewParam(token.NoPos, pkg.Types, "", types.Typ[types.Bool])), false).
+		BodyStart(pkg).Val(0).Val(false).Return(2).End()
+	tEn := pkg.NewType("En").InitType(pkg, types.NewStruct(nil, nil))
+	pkg.NewFunc(types.NewParam(token.NoPos, pkg.Types, "e", tEn), "XGo_Enum", nil, types.NewTuple(types.NewParam(token.NoPos, pkg.Types, "", pIt)), false).
+		BodyStart(pkg).Val(pkg.Builtin().Ref("new")).Typ(tIt).Call(1).Return(1).End()
+	pkg.NewVar(token.NoPos, tEn, "en")
 	fsig := types.NewSignatureType(nil, nil, nil, nil, types.NewTuple(types.NewParam(token.NoPos, pkg.Types, "", ti)), false)
 	pkg.NewFunc(nil, "gf", types.NewTuple(types.NewParam(token.NoPos, pkg.Types, "f", fsig)), nil, false).BodyStart(pkg).End()
 	return fb
@@ -347,6 +362,9 @@ func (fb *flowBuilder) build(ops [][2]string) (d flowDiag, fail string) {
 		case "range":
 			cb.ForRange().Val(ref("sl")).RangeAssignThen(token.NoPos)
 			stack = append(stack, k)
+		case "erange":
+			cb.ForRange().Val(ref("en")).RangeAssignThen(token.NoPos)
+			stack = append(stack, k)
 		case "block":
 			cb.Block()
 			stack = append(stack, k)
@@ -363,6 +381,10 @@ func (fb *flowBuilder) build(ops [][2]string) (d flowDiag, fail string) {
 		case "closure":
 			cb.Val(ref("gf"))
 			cb.NewClosure(nil, res(), false).BodyStart(pkg)
+			stack = append(stack, k)
+			fwd = append(fwd, map[string]*gogen.Label{})
+		case "inline":
+			cb.CallInlineClosureStart(types.NewSignatureType(nil, nil, nil, nil, nil, false), 0, false)
 			stack = append(stack, k)
 			fwd = append(fwd, map[string]*gogen.Label{})
 		case "else":
@@ -397,6 +419,9 @@ func (fb *flowBuilder) build(ops [][2]string) (d flowDiag, fail string) {
 				fwd = fwd[:len(fwd)-1]
 				cb.Call(1).EndStmt()
 			}
+			if top == "inline" {
+				fwd = fwd[:len(fwd)-1]
+			}
 		}
 	}
 	cb.End()
@@ -427,7 +452,7 @@ func flowShape(ops [][2]string) string {
 			if len(st) > 0 {
 				st = st[:len(st)-1]
 			}
-		case "ifb", "for", "forcond", "range", "block", "switch", "tswitch", "select", "closure", "case", "default":
+		case "ifb", "for", "forcond", "range", "erange", "inline", "block", "switch", "tswitch", "select", "closure", "case", "default":
 			st = append(st, op[0])
 		}
 		parts = append(parts, op[0])
@@ -541,6 +566,7 @@ func runC10(tier, replay string) {
 		{name: "forward-goto-7", cfg: flowCfg(7, 4, `{"L"}`, `{"for","ifb","switch","closure"}`, `{"ret","call"}`, `{"fgoto","label"}`, 3)},
 		{name: "for-if-else-break-9", cfg: flowCfg(9, 4, `{"L"}`, `{"for","ifb"}`, `{"ret"}`, `{"break"}`, 2)},
 		{name: "simple-statements-5", cfg: flowCfg(5, 3, `{"L"}`, `{"ifb","for","closure"}`, `{"ret","assign","define","incdec","send","defer","go","var"}`, `{}`, 3)},
+		{name: "enumerator-range-last-6", cfg: flowCfg(6, 4, `{"L"}`, `{"erange","ifb","for"}`, `{"ret"}`, `{"break"}`, 2)},
 		{name: "clause-trailing-label-9", cfg: flowCfg(9, 4, `{"L"}`, `{"switch","select"}`, `{"ret"}`, `{"fgoto","label"}`, 2)},
 	}
 	if tier == "thorough" {
